@@ -154,7 +154,7 @@ impl<'a> IrEmitter<'a> {
         if let IrExprKind::Var { name, .. } = &object.kind {
             let key = (name.to_string(), field.to_string());
             if self.enum_variant_fields.contains_key(&key) {
-                let type_ident = format_ident!("{}", name);
+                let type_ident = format_ident!("{}", Self::escape_keyword(name));
                 let f = format_ident!("{}", Self::escape_keyword(field));
                 return Ok(quote! { #type_ident::#f });
             }
